@@ -1,6 +1,7 @@
 package did
 
 import (
+	"bytes"
 	"crypto/ecdsa"
 	"crypto/elliptic"
 	"crypto/x509"
@@ -143,6 +144,11 @@ func rsaPubKeyUnmarshaller(data []byte) (crypto.PubKey, error) {
 	rsaPublicKey, err := x509.ParsePKCS1PublicKey(data)
 	if err != nil {
 		return nil, err
+	}
+	// The parser tolerates extra elements inside the RSAPublicKey sequence. Only the
+	// canonical DER encoding of the key is accepted, otherwise one key has many DIDs.
+	if !bytes.Equal(x509.MarshalPKCS1PublicKey(rsaPublicKey), data) {
+		return nil, fmt.Errorf("RSA public key is not canonically encoded")
 	}
 
 	pkix, err := x509.MarshalPKIXPublicKey(rsaPublicKey)
